@@ -129,6 +129,8 @@ var (
 	rRefuseW  = Rule{"REFUSE-PURE-W", rules.RefusePureW}
 	rEndClear = Rule{"ORD-ENDCLEAR", rules.OrdEndClear}
 	rWrCache  = Rule{"OWN-WRCACHE", rules.OwnWriterCache}
+	rIndex    = Rule{"NUM-INDEX", rules.NumIndex(rules.ScopeAlloc, rules.IndexResiduals, 200)}
+	rSlice    = Rule{"NUM-SLICE", rules.NumSlice(rules.ScopeSlice, rules.SliceResiduals, 15)}
 	rOpaque   = Rule{"TAB-OPAQUE", rules.TabOpaque}
 	rKind     = Rule{"TAB-KIND", rules.TabKind}
 	rCopyLoop = Rule{"TAB-COPYLOOP", rules.TabCopyLoop}
@@ -175,7 +177,7 @@ var registry = map[string]*Property{
 		Rules: []Rule{
 			only(rTypecode, 30, whatLacks("binaryNulls[")), rNibble,
 			only(rCodec, 8, whatHas("decode")), only(rShift, 5, posHas("ion/bitstream.go")), only(rNarrow, 15, posHas("ion/bitstream.go", "ion/binaryreader.go")),
-			only(rOwnInput, 3, whatHas("slice returned by Peek")),
+			only(rOwnInput, 2, whatHas("slice returned by Peek")),
 		},
 	},
 	"C04": {
@@ -198,15 +200,15 @@ var registry = map[string]*Property{
 		Rules:      []Rule{rTextAuth, rSid0, rTokCache},
 	},
 	"C06": {
-		Decided:    "In package ion: a pointer obtained from an accessor that returns (nil, nil) for a typed null is dereferenced only where it is known non-nil, with preconditions inferred through helper calls (NIL-ACC); such a pointer is not passed to a callee that dereferences it unguarded (NIL-ARG); the pointer fields documented nil-if-unknown (SymbolToken.Text/Source, ImportSource) are dereferenced only under a nil test of the same access path (NIL-FIELD); every panicking pop on the reader-side stacks is dominated by a non-emptiness fact (ORD-POPGUARD, reader obligations); on the input side every allocation with a non-constant size is sized by the length of data already in memory or by a value bounded by 2^20 — a declared length never sizes an allocation before the bytes exist (NUM-ALLOC, 2 residual rows).",
+		Decided:    "In package ion: a pointer obtained from an accessor that returns (nil, nil) for a typed null is dereferenced only where it is known non-nil, with preconditions inferred through helper calls (NIL-ACC); such a pointer is not passed to a callee that dereferences it unguarded (NIL-ARG); the pointer fields documented nil-if-unknown (SymbolToken.Text/Source, ImportSource) are dereferenced only under a nil test of the same access path (NIL-FIELD); every panicking pop on the reader-side stacks is dominated by a non-emptiness fact (ORD-POPGUARD, reader obligations); on the input side every allocation with a non-constant size is sized by the length of data already in memory or by a value bounded by 2^20 — a declared length never sizes an allocation before the bytes exist (NUM-ALLOC, 2 residual rows); every index into a slice, string or array on the input side (240 sites) is inside the bounds by the loop that produces it, by a dominating comparison with the length of the same object, by the callee's length contract (Peek(n), readN(n)) or by what every call site establishes (NUM-INDEX, 7 residual rows); the same for the bounds of slice expressions in the reader, symbol-table, unmarshal and timestamp files (NUM-SLICE, 3 residual rows).",
 		Necessary:  "An unguarded dereference of a typed null's nil accessor result, or an unguarded pop, is a panic on an input that exists (null.int, $0, imports:null.symbol — findings F7, F8, F9, all fixed).",
-		NotDecided: "index/slice bounds, internal consistency panics, loop termination, recursion depth, memory retained by deeply nested or very long valid input",
+		NotDecided: "slice bounds inside the text formatters (decimal.go, textutils.go), explicit internal-consistency panics (bitstream.remaining/StepOut: pos <= end is arithmetic), loop termination, recursion depth, memory retained by deeply nested or very long valid input",
 		Technique:  "SSA must-dataflow of nil facts keyed by canonical access path, with inferred callee preconditions",
 		DesignRef:  "DESIGN.md §3.2, §4 C06",
 		Rules: []Rule{
 			{"NIL-ACC", rules.NilAcc(rules.ScopeIon, 20)}, {"NIL-ARG", rules.NilArg(rules.ScopeIon, 0)}, {"NIL-FIELD", rules.NilField(rules.ScopeIon, 8)},
 			only(rOrdPopGuard, 2, funcHas("Reader", "bitstream", "tokenizer")),
-			rAlloc,
+			rAlloc, rIndex, rSlice,
 		},
 	},
 	"C07": {
@@ -280,14 +282,14 @@ var registry = map[string]*Property{
 		Rules:      []Rule{rExp32, rNoFloat, only(rNarrow, 5, posHas("ion/decimal.go"))},
 	},
 	"C15": {
-		Decided:    "Calendar validation compares every field it hands to time.Date (which normalises month 13, day 32, hour 24, minute/second 60 instead of rejecting them) with the matching accessor of the result before every success exit, and the time value each decoded timestamp is built from has 1 <= Year() <= 9999 established — for the local time after the offset is applied, not for the UTC fields (TAB-DATEVAL); the binary timestamp layout uses the codecs Ion 1.0 prescribes on both sides — VarInt offset, VarUInt calendar fields, decimal fraction with VarInt exponent and Int coefficient (TAB-CODEC, timestamp obligations) — and timestampLen measures exactly the operands appendTimestamp appends, with the same codec, every unmeasured operand being a one-byte VarUInt by its interval (TAB-LENPAY, timestamp pair); calendar fields and fraction digits are narrowed only within range (NUM-NARROW, timestamp obligations) and the fraction rounding never extracts 64 bits from a larger big.Int (NUM-BIG).",
+		Decided:    "Calendar validation compares every field it hands to time.Date (which normalises month 13, day 32, hour 24, minute/second 60 instead of rejecting them) with the matching accessor of the result before every success exit, and the time value each decoded timestamp is built from has 1 <= Year() <= 9999 established — for the local time after the offset is applied, not for the UTC fields (TAB-DATEVAL); the binary timestamp layout uses the codecs Ion 1.0 prescribes on both sides — VarInt offset, VarUInt calendar fields, decimal fraction with VarInt exponent and Int coefficient (TAB-CODEC, timestamp obligations) — and timestampLen measures exactly the operands appendTimestamp appends, with the same codec, every unmeasured operand being a one-byte VarUInt by its interval (TAB-LENPAY, timestamp pair); calendar fields and fraction digits are narrowed only within range (NUM-NARROW, timestamp obligations) and the fraction rounding never extracts 64 bits from a larger big.Int (NUM-BIG); every index and slice bound the timestamp parser applies to its input string is inside the string (NUM-INDEX, NUM-SLICE, timestamp.go obligations — found F30: ParseTimestamp of 2000-01-01T00:00:00.123 panicked).",
 		Necessary:  "Binary minute 60 was normalised into the next hour (F18, fixed); binary year 0, 10000, 2^31 and a wrapped 2^64-100 were accepted (fixed: 27f5dbd); a fraction coefficient measured with another codec than it is written with mis-frames every following byte (seeded C01-1/C04-1/C15-3); a 21-digit fraction decoded through Int64() of a 70-bit number (F19, fixed).",
 		NotDecided: "text formatting (layout selection, trailing zeros), staged text parsing by string position, offset arithmetic and its 24h bound, rounding direction of fractions",
 		Technique:  "SSA branch-fact dominance (equalities with time accessors, helper-predicate facts) + " + numTech + "; codec-family tables compared with Ion 1.0",
 		DesignRef:  "DESIGN.md §3.3, §3.4, §4 C15, §0.7",
 		Rules: []Rule{
 			rDateVal, only(rCodec, 14, anyOf(funcHas("imestamp", "readNsecs", "readDecimal"))), only(rLenPay, 18, funcHas("imestamp")),
-			only(rNarrow, 12, anyOf(funcHas("imestamp", "readNsecs", "readDecimal"), posHas("ion/timestamp.go"))), only(rBig, 1, funcHas("round")),
+			only(rNarrow, 12, anyOf(funcHas("imestamp", "readNsecs", "readDecimal"), posHas("ion/timestamp.go"))), only(rBig, 1, funcHas("round")), only(rIndex, 20, posHas("ion/timestamp.go")), only(rSlice, 8, posHas("ion/timestamp.go")),
 		},
 	},
 	"C16": {
@@ -358,7 +360,8 @@ var devRules = map[string]Rule{
 	"TAB-KIND":        {"TAB-KIND", rules.TabKind},
 	"ORD-ENDCLEAR":    {"ORD-ENDCLEAR", rules.OrdEndClear},
 	"OWN-WRCACHE":     {"OWN-WRCACHE", rules.OwnWriterCache},
-	"NUM-INDEX":       {"NUM-INDEX", rules.NumIndex(rules.ScopeAlloc, nil, 0)},
+	"NUM-INDEX":       {"NUM-INDEX", rules.NumIndex(rules.ScopeAlloc, rules.IndexResiduals, 0)},
+	"NUM-SLICE":       {"NUM-SLICE", rules.NumSlice(rules.ScopeSlice, rules.SliceResiduals, 0)},
 	"REFUSE-PURE-W":   {"REFUSE-PURE-W", rules.RefusePureW},
 	"OWN-TOKCACHE":    {"OWN-TOKCACHE", rules.OwnTokCache},
 	"TAB-SID0":        {"TAB-SID0", rules.TabSid0},
